@@ -811,8 +811,7 @@ pub fn validate(file: &[u8], o: &ValidateOpts) -> Result<Validated, String> {
         if o.strict_consumed && consumed != raw.len() {
             return Err(format!("metadata: codec consumed {consumed} of {} bytes", raw.len()));
         }
-        let v: serde_json::Value =
-            serde_json::from_slice(&plain).map_err(|e| format!("metadata: not JSON: {e}"))?;
+        let v: serde_json::Value = json_parse(&plain).map_err(|e| format!("metadata: not JSON: {e}"))?;
         match v {
             serde_json::Value::Object(m) => m,
             _ => return Err(String::from("metadata: JSON value is not an object")),
@@ -959,4 +958,180 @@ pub fn find_covering(entries: &[REntry], id: u64) -> Option<REntry> {
         .iter()
         .find(|e| e.run_length > 0 && id >= e.tile_id && id - e.tile_id < u64::from(e.run_length))
         .copied()
+}
+
+// ---------------------------------------------------------------- independent JSON reader
+
+/// A small RFC 8259 parser, independent of serde_json's parser (numbers go through Rust's
+/// correctly rounded `str::parse::<f64>`), producing `serde_json::Value` for comparison only.
+pub fn json_parse(text: &[u8]) -> Result<serde_json::Value, String> {
+    let s = std::str::from_utf8(text).map_err(|e| format!("metadata is not UTF-8: {e}"))?;
+    let b = s.as_bytes();
+    let mut pos = 0usize;
+    let v = json_value(b, &mut pos, 0)?;
+    json_ws(b, &mut pos);
+    if pos != b.len() {
+        return Err(format!("trailing characters at byte {pos}"));
+    }
+    Ok(v)
+}
+
+fn json_ws(b: &[u8], pos: &mut usize) {
+    while *pos < b.len() && matches!(b[*pos], b' ' | b'\t' | b'\n' | b'\r') {
+        *pos += 1;
+    }
+}
+
+fn json_value(b: &[u8], pos: &mut usize, depth: u32) -> Result<serde_json::Value, String> {
+    use serde_json::Value;
+    if depth > 512 {
+        return Err(String::from("nesting too deep"));
+    }
+    json_ws(b, pos);
+    let Some(&c) = b.get(*pos) else { return Err(String::from("unexpected end")) };
+    match c {
+        b'{' => {
+            *pos += 1;
+            let mut m = serde_json::Map::new();
+            json_ws(b, pos);
+            if b.get(*pos) == Some(&b'}') {
+                *pos += 1;
+                return Ok(Value::Object(m));
+            }
+            loop {
+                json_ws(b, pos);
+                let k = json_string(b, pos)?;
+                json_ws(b, pos);
+                if b.get(*pos) != Some(&b':') {
+                    return Err(format!("expected ':' at byte {pos}"));
+                }
+                *pos += 1;
+                let v = json_value(b, pos, depth + 1)?;
+                m.insert(k, v);
+                json_ws(b, pos);
+                match b.get(*pos) {
+                    Some(b',') => *pos += 1,
+                    Some(b'}') => {
+                        *pos += 1;
+                        return Ok(Value::Object(m));
+                    }
+                    _ => return Err(format!("expected ',' or '}}' at byte {pos}")),
+                }
+            }
+        }
+        b'[' => {
+            *pos += 1;
+            let mut a = Vec::new();
+            json_ws(b, pos);
+            if b.get(*pos) == Some(&b']') {
+                *pos += 1;
+                return Ok(Value::Array(a));
+            }
+            loop {
+                a.push(json_value(b, pos, depth + 1)?);
+                json_ws(b, pos);
+                match b.get(*pos) {
+                    Some(b',') => *pos += 1,
+                    Some(b']') => {
+                        *pos += 1;
+                        return Ok(Value::Array(a));
+                    }
+                    _ => return Err(format!("expected ',' or ']' at byte {pos}")),
+                }
+            }
+        }
+        b'"' => Ok(Value::String(json_string(b, pos)?)),
+        b't' if b[*pos..].starts_with(b"true") => {
+            *pos += 4;
+            Ok(Value::Bool(true))
+        }
+        b'f' if b[*pos..].starts_with(b"false") => {
+            *pos += 5;
+            Ok(Value::Bool(false))
+        }
+        b'n' if b[*pos..].starts_with(b"null") => {
+            *pos += 4;
+            Ok(Value::Null)
+        }
+        b'-' | b'0'..=b'9' => {
+            let start = *pos;
+            while *pos < b.len() && matches!(b[*pos], b'-' | b'+' | b'.' | b'e' | b'E' | b'0'..=b'9') {
+                *pos += 1;
+            }
+            let tok = std::str::from_utf8(&b[start..*pos]).map_err(|e| e.to_string())?;
+            let is_float = tok.contains(['.', 'e', 'E']);
+            if !is_float {
+                if let Ok(u) = tok.parse::<u64>() {
+                    return Ok(Value::Number(u.into()));
+                }
+                if let Ok(i) = tok.parse::<i64>() {
+                    if tok != "-0" {
+                        return Ok(Value::Number(i.into()));
+                    }
+                }
+            }
+            let f: f64 = tok.parse().map_err(|_| format!("bad number {tok}"))?;
+            serde_json::Number::from_f64(f).map(Value::Number).ok_or_else(|| format!("number {tok} out of range"))
+        }
+        _ => Err(format!("unexpected character at byte {pos}")),
+    }
+}
+
+fn json_hex4(b: &[u8], pos: &mut usize) -> Result<u32, String> {
+    if *pos + 4 > b.len() {
+        return Err(String::from("short \\u escape"));
+    }
+    let s = std::str::from_utf8(&b[*pos..*pos + 4]).map_err(|e| e.to_string())?;
+    *pos += 4;
+    u32::from_str_radix(s, 16).map_err(|e| e.to_string())
+}
+
+fn json_string(b: &[u8], pos: &mut usize) -> Result<String, String> {
+    if b.get(*pos) != Some(&b'"') {
+        return Err(format!("expected string at byte {pos}"));
+    }
+    *pos += 1;
+    let mut out: Vec<u8> = Vec::new();
+    loop {
+        let Some(&c) = b.get(*pos) else { return Err(String::from("unterminated string")) };
+        *pos += 1;
+        match c {
+            b'"' => return String::from_utf8(out).map_err(|e| e.to_string()),
+            b'\\' => {
+                let Some(&e) = b.get(*pos) else { return Err(String::from("unterminated escape")) };
+                *pos += 1;
+                match e {
+                    b'"' => out.push(b'"'),
+                    b'\\' => out.push(b'\\'),
+                    b'/' => out.push(b'/'),
+                    b'b' => out.push(8),
+                    b'f' => out.push(12),
+                    b'n' => out.push(b'\n'),
+                    b'r' => out.push(b'\r'),
+                    b't' => out.push(b'\t'),
+                    b'u' => {
+                        let mut cp = json_hex4(b, pos)?;
+                        if (0xD800..0xDC00).contains(&cp) {
+                            if b.get(*pos) == Some(&b'\\') && b.get(*pos + 1) == Some(&b'u') {
+                                *pos += 2;
+                                let lo = json_hex4(b, pos)?;
+                                if !(0xDC00..0xE000).contains(&lo) {
+                                    return Err(String::from("bad low surrogate"));
+                                }
+                                cp = 0x10000 + ((cp - 0xD800) << 10) + (lo - 0xDC00);
+                            } else {
+                                return Err(String::from("lone surrogate"));
+                            }
+                        }
+                        let ch = char::from_u32(cp).ok_or("bad code point")?;
+                        let mut buf = [0u8; 4];
+                        out.extend_from_slice(ch.encode_utf8(&mut buf).as_bytes());
+                    }
+                    _ => return Err(String::from("bad escape")),
+                }
+            }
+            0..=0x1f => return Err(String::from("control character in string")),
+            _ => out.push(c),
+        }
+    }
 }
